@@ -152,6 +152,16 @@ int gen_matrix(const case_t *c, rng_t *r, csc_t *A)
             for (int_t a = par[j] < n ? par[par[j]] : n; a < n; a = par[a]) if (rng_u01(r) < xanc) P(j, a) = 1;
         }
         free(par);
+    } else if (!strcmp(fam, "skyline")) {
+        /* profile matrix: (dense-ish) lower triangle, and in the upper triangle column c holds rows c-len..c-1 with its own
+           len in 0..maxlen: U segments of every length that start in the middle of supernodes and panels */
+        double ldens = cdbl(c, "ldens", 1.0); int_t maxlen = cint(c, "maxlen", 6);
+        for (int_t j = 0; j < n; ++j) {
+            P(j, j) = 2;
+            for (int_t i = j + 1; i < m; ++i) if (rng_u01(r) < ldens) P(i, j) = 1;
+            int_t len = (int_t)rng_int(r, (uint64_t)maxlen + 1);
+            for (int_t i = j - len < 0 ? 0 : j - len; i < j; ++i) P(i, j) = 1;
+        }
     } else if (!strcmp(fam, "pendclique")) {
         /* node k with npend pendant neighbours (one entry A(p,k) or A(k,p) each), a clique {k} U D in which the links of k
            are stored only in ROW k (A(k,d) != 0, A(d,k) == 0) unless symstruct, D a full block, and an independent dense
@@ -446,6 +456,11 @@ void gen_rhs(rng_t *r, int_t n, int_t nrhs, int_t ldb, elem_t *B, const char *mo
             if (i < n) {
                 if (!strcmp(mode, "int")) B[(size_t)j * ldb + i] = MKE((double)(rng_int(r, 7) - 3), IS_COMPLEX ? (double)(rng_int(r, 7) - 3) : 0);
                 else B[(size_t)j * ldb + i] = MKE(rng_sym(r), rng_sym(r));
+                /* sparse: most entries exactly zero; unit: one nonzero per column; half: leading or trailing half zero */
+                if (!strcmp(mode, "sparse") && rng_u01(r) < 0.75) B[(size_t)j * ldb + i] = MKE(0, 0);
+                if (!strcmp(mode, "unit") && i != (int_t)((uint64_t)(j * 7919 + 13) % (uint64_t)(n > 0 ? n : 1))) B[(size_t)j * ldb + i] = MKE(0, 0);
+                if (!strcmp(mode, "headzero") && i < n / 2) B[(size_t)j * ldb + i] = MKE(0, 0);
+                if (!strcmp(mode, "tailzero") && i >= n / 2) B[(size_t)j * ldb + i] = MKE(0, 0);
             } else B[(size_t)j * ldb + i] = MKE(-7777.0, 7777.0);   /* padding sentinel */
         }
     if (getenv("HX_DUMP_RHS")) {
